@@ -109,6 +109,7 @@ def run(chk):
     chk.extra["proxy_call_graph_bodies"] = len(bodies)
     from . import shared
     shared.response_reads(chk, prog, "R1.exact_reads")
+    shared.header_line_split(chk, prog, "R1.header_split", "humphrey::http::response::Response::from_stream")
     # ---- R2 bounded wait
     conn = [blk for blk, t in bi.calls_to(r"TcpStream::connect_timeout$")]
     plain = [blk for blk, t in bi.calls_to(r"TcpStream::connect$")]
@@ -169,6 +170,12 @@ def run(chk):
                     labels.append(f"field{m[1]}=")
             chk.ob("R3.forwarded", PRI, "the only change to the relayed request is the added X-Forwarded-For", labels == ["add(X-Forwarded-For)"],
                    f"mutations of the cloned request: {labels}")
+            # ... and it is added on every path to the write (not only when the client sent none: the client's own header may be
+            # unparseable, in which case the address falls back to the socket peer and nothing carrying it would be relayed)
+            adds = [m[2] for m in muts if m[0] == "call" and (m[3].get("callee") or "").endswith("Headers::add")]
+            w_ = core.must_pass(bi, [0], [wb], through_nodes=adds, after_from=False)
+            chk.ob("R3.forwarded", PRI, "X-Forwarded-For is added on every path to the upstream write", w_ is None and bool(adds),
+                   "the relayed request can be written without the X-Forwarded-For carrying the client's address", where=bi.where(wb), path=w_)
     # server side: proxied_request = clone(request) with uri replaced by the stripped uri
     prc = [(blk, t) for blk, t in h.calls_to(r"proxy::proxy_request$")]
     chk.floor("proxy_request call in proxy_handler", len(prc), 1)
